@@ -61,7 +61,16 @@ def check_dmrg(case, rec):
 
     def one_call(label, E_before):
         with LanczosMonitor() as mon:
-            en = run_dmrg(kind, H, psi, sweeps, iters, tol_split)
+            try:
+                en = run_dmrg(kind, H, psi, sweeps, iters, tol_split)
+            except Exception:
+                # a garbage Ritz vector after an undetected Lanczos breakdown can zero a tensor and abort the sweep
+                # (`assert nrmv > 0` in the next local solve): same known finding, same signature
+                if mon.past_breakdown and known_listed(ID, KEY_F5):
+                    rec.label('lanczos_past_breakdown', 'aborted_after_breakdown')
+                    rec.excluded_known += 1
+                    raise Excluded()
+                raise
         energy_ok = True
         if mon.past_breakdown:
             rec.label('lanczos_past_breakdown')
@@ -134,9 +143,20 @@ def check_converges(case, rec):
     E_gs, sdim = sector_ground_energy(Hd, psi.qd, L, total)
     D = psi.bond_dims
     kind = case['algorithm']
-    iters = (d * d if kind == 'two' else d) * max(D) ** 2 + 2
+    # enough iterations = the largest local dimension the sweep can meet (bonds of a complete manifold cannot grow)
+    if kind == 'two':
+        iters = max(d * d * D[i] * D[i + 2] for i in range(L - 1)) + 2
+    else:
+        iters = max(d * D[i] * D[i + 1] for i in range(L)) + 2
     with LanczosMonitor() as mon:
-        en = run_dmrg(kind, H, psi, 6, iters, 0)
+        try:
+            en = run_dmrg(kind, H, psi, 6, iters, 0)
+        except Exception:
+            if mon.past_breakdown and known_listed(ID, KEY_F5):
+                rec.label('lanczos_past_breakdown', 'aborted_after_breakdown')
+                rec.excluded_known += 1
+                return
+            raise
     if mon.past_breakdown:
         rec.label('lanczos_past_breakdown')
         if known_listed(ID, KEY_F5):
